@@ -686,8 +686,41 @@ fn oracle_cfg(idx: u64) -> GenCfg {
     cfg
 }
 
+/// Staircase family: a single line that needs one freeze pass PER ITEM (random lines settle in two or three): flex-basis 0, grow
+/// factors 3^(n-1-i), and max sizes chosen so that in pass j exactly item j exceeds its max (a tenth below its share of what is
+/// left), the last item unbounded.  10 or 12 items, row or column, three scales.
+fn staircase_case(rng: &mut Rng) -> (NodeSpec, Size<AvailableSpace>) {
+    let n = *rng.pick(&[10usize, 12]);
+    let w = *rng.pick(&[10000.0f64, 5000.0, 30000.0]);
+    let row = rng.chance(1, 2);
+    let grow: Vec<f64> = (0..n).map(|i| 3f64.powi((n - 1 - i) as i32)).collect();
+    let mut free = w;
+    let mut children = vec![];
+    for j in 0..n {
+        let mut s = Style { flex_basis: Dimension::length(0.0), flex_grow: grow[j] as f32, flex_shrink: 1.0, ..Default::default() };
+        if j + 1 < n {
+            let g: f64 = grow[j..].iter().sum();
+            let m = ((free * grow[j] / g * 0.9) * 4.0).round() / 4.0;
+            free -= m;
+            if row {
+                s.max_size.width = Dimension::length(m as f32);
+            } else {
+                s.max_size.height = Dimension::length(m as f32);
+            }
+        }
+        children.push(NodeSpec::leaf(s));
+    }
+    let mut root = Style { display: Display::Flex, ..Default::default() };
+    root.flex_direction = if row { FlexDirection::Row } else { FlexDirection::Column };
+    root.size = if row { Size { width: Dimension::length(w as f32), height: Dimension::length(50.0) } } else { Size { width: Dimension::length(50.0), height: Dimension::length(w as f32) } };
+    (NodeSpec { style: root, ctx: None, children }, Size::MAX_CONTENT)
+}
+
 fn oracle_case(seed: u64, idx: u64) -> (NodeSpec, Size<AvailableSpace>) {
     let mut rng = Rng::new(seed.wrapping_mul(0x9E37_79B9).wrapping_add(idx).wrapping_add(0xC07));
+    if idx % 50 == 13 {
+        return staircase_case(&mut rng);
+    }
     let cfg = oracle_cfg(idx);
     let mut t = treegen::tree(&mut rng, &cfg);
     // two thirds of the cases: a flex root with a definite size and flex factors in {0, 1, 2, 2.5} below it;
